@@ -63,18 +63,25 @@ Section AllNodes.
     | _ => true end.
 End AllNodes.
 
-(* types whose values survive the basic form.  Mapping keys are restricted to the scalar
-   key types whose packer is the identity (leaf/enum-typed keys are decided by the
-   correspondence and the oracle only). *)
+(* types whose values survive the basic form.  Mapping keys: the scalar key types, whose packer is the
+   identity, and leaf / enum / bytes key types, whose wire form is a rendering -- for those the round trip
+   needs the renderings of the keys present to be pairwise distinct ([atom_ok] on the dict, below). *)
 Definition key_id (t: sty) : bool :=
   match t with SIntT | SFloatT | SBoolT | SStrT => true | _ => false end.
+Definition key_ok (t: sty) : bool :=
+  match t with SIntT | SFloatT | SBoolT | SStrT | SLeaf _ | SEnum _ | SBytes _ => true | _ => false end.
 
 Fixpoint lossless (t: sty) : bool :=
   match t with
-  | SList t' | SSet _ t' | STupleVar t' | SOpt t' => lossless t'
+  | SList t' | SSet _ t' | STupleVar t' | SOpt t' | SSeq t' => lossless t'
   | STupleFix ts => forallb lossless ts
   | STupleU pre mid post => forallb lossless pre && lossless mid && forallb lossless post
-  | SDict kt vt => key_id kt && lossless vt
+  | SDict kt vt | SMap kt vt => key_ok kt && lossless vt
+  | SBox b t' =>
+      (* the content of a boxed collection is a list or a dict; a ChainMap holds a list of maps (the
+         normalisation of the canonical empty one relies on that shape) *)
+      (if is_chain b then match t' with SSeq (SMap _ _) => true | _ => false end
+       else match t' with SSeq _ | SMap _ _ => true | _ => false end) && lossless t'
   | _ => true end.
 
 Definition cls_ok (c: scls) : bool :=
@@ -163,6 +170,14 @@ Section C01.
   (* every atomic value present round-trips through its stdlib primitive, and Python's
      container invariants hold (set elements / dict keys hashable and pairwise distinct).
      Exactly the documented lossy representations fail [atom_ok]. *)
+  (* what a mapping key looks like on the wire *)
+  Definition key_wire (k: pv) : pv :=
+    match k with
+    | VLeaf kd w => P.(p_render) kd w
+    | VEnum e m => match P.(p_enum_value) e m with Some val => val | None => k end
+    | VBytes _ b => VStr (P.(p_b64enc) b)
+    | _ => k end.
+
   Definition atom_ok (x: pv) : bool :=
     match x with
     | VLeaf k w =>
@@ -176,7 +191,11 @@ Section C01.
     | VBytes _ b =>
         match P.(p_b64dec) (VStr (P.(p_b64enc) b)) with Some b' => String.eqb b' b | None => false end
     | VSet _ l => nodup_elems l && forallb hashable l
-    | VDict kvs => forallb (fun p => hashable (fst p)) kvs
+    | VDict kvs =>
+        (* keys hashable; the wire forms of the keys pairwise distinct (for scalar keys this is the dict invariant
+           itself; for leaf / enum / bytes keys: the rendering does not identify two keys that are present) *)
+        forallb (fun p => hashable (fst p)) kvs &&
+        nodup_keys (map (fun p => (key_wire (fst p), snd p)) kvs)
     | _ => true end.
 
   Definition vals_ok := all_nodes atom_ok.
@@ -195,10 +214,10 @@ Section C01.
 
   (* a non-None conforming value never encodes to None (needed under Optional) *)
   Lemma enc_not_none v : forall t w,
-    conf_ord E v t = true -> is_none v = false -> atom_ok v = true ->
+    conf_ord E v t = true -> lossless t = true -> is_none v = false -> atom_ok v = true ->
     ref_enc E P v t = Ok w -> is_none w = false.
   Proof.
-    intros t. induction t; intros w HC HN HA HE; rewrite conf_unfold in HC; rewrite ref_enc_unfold in HE.
+    intros t. induction t; intros w HC HL HN HA HE; rewrite conf_unfold in HC; rewrite ref_enc_unfold in HE.
     all: try (injection HE as Hw; rewrite <- Hw; exact HN).
     - (* bytes *) destruct v; try discriminate. inversion HE. reflexivity.
     - (* leaf *) destruct v; try discriminate. inversion HE; subst. cbn [atom_ok] in HA.
@@ -215,13 +234,24 @@ Section C01.
       destruct v; try discriminate. destruct (_ <? _)%nat; [discriminate|]. cbv zeta in HE.
       match type of HE with (bind ?X _ = _) => destruct X end; inversion HE. reflexivity.
     - destruct v; try discriminate. destruct (mapM _ _); inversion HE. reflexivity.
-    - (* Optional *) rewrite HN in HE, HC. cbn [orb] in HC. apply (IHt w HC HN HA HE).
+    - (* Optional *) rewrite HN in HE, HC. cbn [orb] in HC. apply (IHt w HC HL HN HA HE).
     - destruct v; try discriminate. destruct (sfind E _ c); [|discriminate].
       match type of HE with (bind ?X _ = _) => destruct X end; inversion HE. reflexivity.
     - destruct v; try discriminate. destruct (sfind E _ c); [|discriminate].
       match type of HE with (bind ?X _ = _) => destruct X end; inversion HE. reflexivity.
     - destruct v; try discriminate. destruct (sfind E _ c); [|discriminate]. cbv zeta in HE.
       match type of HE with (bind ?X _ = _) => destruct X end; inversion HE. reflexivity.
+    - (* Sequence *) destruct v; try discriminate. destruct (mapM _ _); inversion HE. reflexivity.
+    - (* Mapping *) destruct v; try discriminate. destruct (mapM _ _); inversion HE. reflexivity.
+    - (* boxed collection: its content is a list or a dict *)
+      destruct v as [ | | | | | | | | | | c fs | | | | ]; try discriminate HC.
+      destruct fs as [|[n inner] [|]]; try discriminate HC.
+      destruct (chain_empty (is_chain b) inner); [inversion HE; reflexivity|].
+      apply andb_prop in HC. destruct HC as [_ HC]. cbn [lossless] in HL. apply andb_prop in HL. destruct HL as [Hs _].
+      assert (Hshape: match t with SSeq _ | SMap _ _ => True | _ => False end).
+      { destruct (is_chain b); destruct t; try discriminate Hs; exact I. }
+      rewrite conf_unfold in HC. rewrite ref_enc_unfold in HE.
+      destruct t; try contradiction; destruct inner; try discriminate HC; destruct (mapM _ _); inversion HE; reflexivity.
   Qed.
 
   Lemma omapM_nt_eq {B} (g: sfield -> option B) (q: sfield -> B -> bool) fds (l cs: list B) :
@@ -255,7 +285,7 @@ Section C01.
   Lemma const_ty_conf_eq_n n : forall t c x, const_ty_n E n t = Some c -> conf_ord E x t = true -> x = c.
   Proof.
     induction n as [|n IHn].
-    all: induction t as [ | | | | | | m' | k' | e' | t' IHt | fr' t' IHt | t' IHt | ts IHts | pre IHpre mid IHmid IHmide post IHpost | kt IHkt vt IHvt | t' IHt | c' | c' | c' ]
+    all: induction t as [ | | | | | | m' | k' | e' | t' IHt | fr' t' IHt | t' IHt | ts IHts | pre IHpre mid IHmid IHmide post IHpost | kt IHkt vt IHvt | t' IHt | c' | c' | c' | t' IHt | kt IHkt vt IHvt | bx t' IHt ]
       using sty_ind'; intros c x Hc HC; rewrite const_ty_n_unfold in Hc; try discriminate Hc.
     all: try solve [
       destruct (omapM (const_ty_n E _) pre) as [a|] eqn:Ea; [|discriminate Hc];
@@ -285,11 +315,15 @@ Section C01.
   Lemma const_ty_conf_eq t c x : const_ty E t = Some c -> conf_ord E x t = true -> x = c.
   Proof. apply const_ty_conf_eq_n. Qed.
 
-  Lemma dec_key_id k kt : key_id kt = true -> conf_ord E k kt = true -> ref_dec E P k kt = Ok k /\ ref_enc E P k kt = Ok k.
+  Lemma enc_key_wire k kt k' : key_ok kt = true -> conf_ord E k kt = true -> ref_enc E P k kt = Ok k' -> k' = key_wire k.
   Proof.
-    intros Hk HC. rewrite conf_unfold in HC. rewrite (ref_dec_unfold E P true), ref_enc_unfold.
-    destruct kt; try discriminate; destruct k; try discriminate; split; reflexivity.
+    intros Hk HC HE. rewrite conf_unfold in HC. rewrite ref_enc_unfold in HE.
+    destruct kt; try discriminate Hk; destruct k; try discriminate HC; try (inversion HE; reflexivity).
+    cbn [key_wire]. destruct (p_enum_value P e0 m) as [val|]; cbn [lift] in HE; [|discriminate HE]. inversion HE. reflexivity.
   Qed.
+
+  Lemma key_ok_lossless kt : key_ok kt = true -> lossless kt = true.
+  Proof. destruct kt; intros H; try discriminate H; reflexivity. Qed.
 
   Definition rt_ok (v: pv) : Prop :=
     forall t w, conf_ord E v t = true -> lossless t = true -> vals_ok v = true ->
@@ -416,7 +450,7 @@ Section C01.
           destruct (is_none y && sfield_nullable f) eqn:Hyn.
           + exfalso. apply andb_prop in Hyn. destruct Hyn as [Hyn Hnf]. rewrite Hnf in Hnull. cbn [andb] in Hnull.
             rewrite vals_ok_unfold in Vx. apply andb_prop in Vx. destruct Vx as [Ax _].
-            rewrite (enc_not_none x (sf_ty f) y Cx Hnull Ax Ey) in Hyn. discriminate.
+            rewrite (enc_not_none x (sf_ty f) y Cx Lx Hnull Ax Ey) in Hyn. discriminate.
           + apply (Qx (sf_ty f) y Cx Lx Vx Ey). }
       rewrite Hy. cbn [bind].
       rewrite (IH fs tl (pre ++ [(VStr (sf_name f), y)])); [reflexivity | | exact Qr | exact Cr | exact Lr | exact Nr | exact Vr | exact Etl | ].
@@ -504,11 +538,91 @@ Section C01.
     rewrite Hm. cbn [bind]. rewrite !map_id. rewrite (parts_rejoin l _ _ Hlen). reflexivity.
   Qed.
 
+  (* ---- dicts / Mappings: keys through their wire form ---- *)
+  Lemma rt_pairs kvs kt vt : Forall (fun p => rt_ok (fst p) /\ rt_ok (snd p)) kvs ->
+    key_ok kt = true -> lossless vt = true ->
+    forallb (fun p : pv * pv => match p with (k, x) => conf_ord E k kt && conf_ord E x vt end) kvs = true ->
+    forallb (fun p : pv * pv => match p with (k, x) => vals_ok k && vals_ok x end) kvs = true ->
+    forallb (fun p : pv * pv => hashable (fst p)) kvs = true ->
+    forall r, mapM (fun p : pv * pv => match p with (k, x) =>
+                      k' <- ref_enc E P k kt ;; x' <- ref_enc E P x vt ;; Ok (k', x') end) kvs = Ok r ->
+    map fst r = map (fun p => key_wire (fst p)) kvs /\
+    mapM (fun p : pv * pv => match p with (k, x) =>
+            k' <- ref_dec E P k kt ;; x' <- ref_dec E P x vt ;;
+            if hashable k' then Ok (k', x') else Exn XTypeError end) r = Ok kvs.
+  Proof.
+    intros IHk Hkok HLv. induction kvs as [|[k x] kvs IHkvs]; intros HC HVl HA r Em.
+    - cbn in Em. inversion Em. split; reflexivity.
+    - cbn [mapM] in Em. cbn [forallb] in HC, HVl, HA.
+      apply andb_prop in HC. destruct HC as [Ckx Cl]. apply andb_prop in Ckx. destruct Ckx as [Ck Cx].
+      apply andb_prop in HVl. destruct HVl as [Vkx Vl]. apply andb_prop in Vkx. destruct Vkx as [Vk Vx].
+      apply andb_prop in HA. destruct HA as [Hk Hl]. cbn [fst] in Hk.
+      inversion IHk as [|? ? [Qk Qx] Qkvs]; subst. cbn [fst snd] in Qk, Qx.
+      destruct (ref_enc E P k kt) as [k1|] eqn:Ek; [|discriminate Em]. cbn [bind] in Em.
+      destruct (ref_enc E P x vt) as [y|] eqn:Ey; [|discriminate Em]. cbn [bind] in Em.
+      match type of Em with (match ?X with _ => _ end = _) => destruct X as [ys|] eqn:Eys end; [|discriminate Em].
+      inversion Em; subst. destruct (IHkvs Qkvs Cl Vl Hl ys eq_refl) as [F1 F2].
+      split; [cbn [map fst]; rewrite F1, (enc_key_wire k kt k1 Hkok Ck Ek); reflexivity|].
+      cbn [mapM]. rewrite (Qk kt k1 Ck (key_ok_lossless kt Hkok) Vk Ek). cbn [bind].
+      rewrite (Qx vt y Cx HLv Vx Ey). cbn [bind]. rewrite Hk. rewrite F2. reflexivity.
+  Qed.
+
+  Lemma rt_dict kvs kt vt w0 : Forall (fun p => rt_ok (fst p) /\ rt_ok (snd p)) kvs ->
+    nodup_keys kvs && forallb (fun p : pv * pv => match p with (k, x) => conf_ord E k kt && conf_ord E x vt end) kvs = true ->
+    key_ok kt && lossless vt = true -> vals_ok (VDict kvs) = true ->
+    (r <- mapM (fun p : pv * pv => match p with (k, x) =>
+                  k' <- ref_enc E P k kt ;; x' <- ref_enc E P x vt ;; Ok (k', x') end) kvs ;;
+     Ok (VDict (dict_of_pairs r))) = Ok w0 ->
+    (r <- mapM (fun p : pv * pv => match p with (k, x) =>
+                  k' <- ref_dec E P k kt ;; x' <- ref_dec E P x vt ;;
+                  if hashable k' then Ok (k', x') else Exn XTypeError end)
+               (match w0 with VDict kvs' => kvs' | _ => [] end) ;;
+     Ok (VDict (dict_of_pairs r))) = Ok (VDict kvs) /\ exists kvs', w0 = VDict kvs'.
+  Proof.
+    intros IHk HC HL HV HE.
+    apply andb_prop in HC. destruct HC as [Hnd HC]. apply andb_prop in HL. destruct HL as [Hkok HLv].
+    rewrite vals_ok_unfold in HV. apply andb_prop in HV. destruct HV as [HA HVl]. cbn [atom_ok] in HA.
+    apply andb_prop in HA. destruct HA as [Hh Hw].
+    match type of HE with (bind ?X _ = _) => destruct X as [r|] eqn:Em end; [|discriminate HE]. cbn [bind] in HE. inversion HE; subst w0.
+    destruct (rt_pairs kvs kt vt IHk Hkok HLv HC HVl Hh r Em) as [Hk Hm].
+    assert (Hnr: nodup_keys r = true).
+    { rewrite (nodup_keys_fst r (map (fun p => (key_wire (fst p), snd p)) kvs)); [exact Hw|].
+      rewrite Hk, map_map. reflexivity. }
+    rewrite (dict_of_pairs_nodup r Hnr). split; [|eexists; reflexivity].
+    rewrite Hm. cbn [bind]. rewrite (dict_of_pairs_nodup kvs Hnd). reflexivity.
+  Qed.
+
+  (* ---- boxed collections ---- *)
+  Lemma rt_box c n inner bx t' w0 : rt_ok inner ->
+    String.eqb c (box_name bx) && String.eqb n "" && chain_canon bx inner && conf_ord E inner t' = true ->
+    lossless (SBox bx t') = true -> vals_ok inner = true ->
+    (if chain_empty (is_chain bx) inner then Ok (VList [VDict []]) else ref_enc E P inner t') = Ok w0 ->
+    (r <- ref_dec E P w0 t' ;; Ok (box_val bx r)) = Ok (VObj c [(n, inner)]).
+  Proof.
+    intros Qi HC HL HV HE.
+    apply andb_prop in HC. destruct HC as [HC Ci]. apply andb_prop in HC. destruct HC as [HC Hcan].
+    apply andb_prop in HC. destruct HC as [Hc Hn]. apply String.eqb_eq in Hc. apply String.eqb_eq in Hn. subst c n.
+    cbn [lossless] in HL. apply andb_prop in HL. destruct HL as [Hs Ll].
+    destruct (chain_empty (is_chain bx) inner) eqn:Ece.
+    - (* the canonical empty ChainMap: wire [{}] *)
+      unfold chain_empty in Ece. apply andb_prop in Ece. destruct Ece as [Hch Hin]. rewrite Hch in Hs.
+      destruct inner as [ | | | | | | l | | | | | | | | ]; try discriminate Hin. destruct l; [|discriminate Hin].
+      inversion HE; subst w0. destruct t' as [ | | | | | | | | | | | | | | | | | | | t'' | | ]; try discriminate Hs.
+      destruct t''; try discriminate Hs.
+      rewrite (ref_dec_unfold E P true). cbn [mapM]. rewrite (ref_dec_unfold E P true). cbn [mapM bind dict_of_pairs fold_left].
+      destruct bx; try discriminate Hch. reflexivity.
+    - rewrite (Qi t' w0 Ci Ll HV HE). cbn [bind]. unfold box_val. f_equal. f_equal. f_equal.
+      unfold chain_canon in Hcan. destruct bx; try reflexivity. cbn [is_chain andb] in Hcan.
+      destruct inner as [ | | | | | | l | | | | | | | | ]; try reflexivity.
+      destruct l as [|x l']; try reflexivity. destruct x as [ | | | | | | | | | kvs | | | | | ]; destruct l'; try reflexivity.
+      all: destruct kvs; first [discriminate Hcan | reflexivity].
+  Qed.
+
   Theorem ref_roundtrip : forall v, rt_ok v.
   Proof.
     induction v as [ | b | z | f | s | m b | l IHl | l IHl | fr l IHl | kvs IHk | c fs IHf | e m | k w | c l IHl | tg ]
       using pv_rect'; unfold rt_ok.
-    all: intros t; induction t as [ | | | | | | m' | k' | e' | t' IHt | fr' t' IHt | t' IHt | ts | pre mid IHmid post | kt IHkt vt IHvt | t' IHt | c' | c' | c' ];
+    all: intros t; induction t as [ | | | | | | m' | k' | e' | t' IHt | fr' t' IHt | t' IHt | ts | pre mid IHmid post | kt IHkt vt IHvt | t' IHt | c' | c' | c' | t' IHt | kt IHkt vt IHvt | bx t' IHt ];
       intros w0 HC HL HV HE; try (solve [apply (rt_tupleu _ _ _ _ _ IHl HC HL HV HE)]);
       rewrite conf_unfold in HC; try discriminate HC;
       rewrite ref_enc_unfold in HE;
@@ -516,21 +630,28 @@ Section C01.
     (* Optional holding a non-None value *)
     all: try solve [ cbn [is_none orb] in HC, HE; cbn [lossless] in HL; rewrite (ref_dec_unfold E P true);
                      pose proof HV as HV'; rewrite vals_ok_unfold in HV'; apply andb_prop in HV'; destruct HV' as [HA _];
-                     rewrite (enc_not_none _ t' w0 HC eq_refl HA HE); apply IHt; assumption ].
+                     rewrite (enc_not_none _ t' w0 HC HL eq_refl HA HE); apply IHt; assumption ].
+    (* lists, variadic tuples, Sequences *)
+    all: try solve [
+      cbn [lossless] in HL; rewrite vals_ok_unfold in HV; apply andb_prop in HV; destruct HV as [_ HVl];
+      destruct (mapM (fun x => ref_enc E P x t') l) as [r|] eqn:Em; [|discriminate]; inversion HE; subst;
+      rewrite (ref_dec_unfold E P true); rewrite (mapM_rt l t' IHl HC HL HVl r Em); reflexivity ].
+    (* dicts, Mappings *)
+    all: try solve [
+      cbn [lossless] in HL; destruct (rt_dict kvs kt vt w0 IHk HC HL HV HE) as [Hd [kvs' Hw]]; subst w0;
+      rewrite (ref_dec_unfold E P true); exact Hd ].
+    (* boxed collections *)
+    all: try solve [
+      destruct fs as [|[n inner] [|]]; try discriminate HC;
+      rewrite vals_ok_unfold in HV; apply andb_prop in HV; destruct HV as [_ HVf]; cbn [forallb] in HVf; rewrite andb_true_r in HVf;
+      inversion IHf as [|? ? Qi _]; subst; cbn [snd] in Qi;
+      rewrite (ref_dec_unfold E P true); apply (rt_box _ _ _ _ _ _ Qi HC HL HVf HE) ].
     - (* bytes *)
       inversion HE; subst. rewrite (ref_dec_unfold E P true).
       rewrite vals_ok_unfold in HV. apply andb_prop in HV. destruct HV as [HA _]. cbn [atom_ok] in HA.
       destruct (p_b64dec P (VStr (p_b64enc P b))) as [b'|]; [|discriminate].
       apply String.eqb_eq in HA. subst b'. cbn [lift bind].
       apply Bool.eqb_prop in HC. subst. reflexivity.
-    - (* list *)
-      cbn [lossless] in HL. rewrite vals_ok_unfold in HV. apply andb_prop in HV. destruct HV as [_ HVl].
-      destruct (mapM (fun x => ref_enc E P x t') l) as [r|] eqn:Em; [|discriminate]. inversion HE; subst.
-      rewrite (ref_dec_unfold E P true). rewrite (mapM_rt l t' IHl HC HL HVl r Em). reflexivity.
-    - (* variadic tuple *)
-      cbn [lossless] in HL. rewrite vals_ok_unfold in HV. apply andb_prop in HV. destruct HV as [_ HVl].
-      destruct (mapM (fun x => ref_enc E P x t') l) as [r|] eqn:Em; [|discriminate]. inversion HE; subst.
-      rewrite (ref_dec_unfold E P true). rewrite (mapM_rt l t' IHl HC HL HVl r Em). reflexivity.
     - (* fixed tuple *)
       cbn [lossless] in HL. rewrite vals_ok_unfold in HV. apply andb_prop in HV. destruct HV as [_ HVl].
       match type of HE with (bind ?X _ = _) => destruct X as [r|] eqn:Em end; [|discriminate]. inversion HE; subst.
@@ -553,34 +674,6 @@ Section C01.
       destruct (mapM (fun x => ref_enc E P x t') l) as [r|] eqn:Em; [|discriminate]. inversion HE; subst.
       rewrite (ref_dec_unfold E P true). rewrite (mapM_rt l t' IHl HC HL HVl r Em). cbn [bind].
       rewrite Hh. rewrite (set_of_list_nodup l Hnd). apply Bool.eqb_prop in Hfr. subst. reflexivity.
-    - (* dict with identity-packed keys *)
-      apply andb_prop in HC. destruct HC as [Hnd HC].
-      cbn [lossless] in HL. apply andb_prop in HL. destruct HL as [Hkid HLv].
-      rewrite vals_ok_unfold in HV. apply andb_prop in HV. destruct HV as [HA HVl]. cbn [atom_ok] in HA.
-      match type of HE with (bind ?X _ = _) => destruct X as [r|] eqn:Em end; [|discriminate]. inversion HE; subst. clear HE.
-      (* the encoded pairs keep their keys, and decode back element-wise *)
-      assert (Hr: map fst r = map fst kvs /\
-                  mapM (fun p : pv * pv => match p with (k, x) =>
-                          k' <- ref_dec E P k kt ;; x' <- ref_dec E P x vt ;;
-                          if hashable k' then Ok (k', x') else Exn XTypeError end) r = Ok kvs).
-      { clear Hnd IHkt IHvt. revert r Em IHk HC HVl HA. induction kvs as [|[k x] kvs IHkvs]; intros r Em IHk HC HVl HA.
-        - cbn in Em. inversion Em. split; reflexivity.
-        - cbn [mapM] in Em. cbn [forallb] in HC, HVl, HA.
-          apply andb_prop in HC. destruct HC as [Ckx Cl]. apply andb_prop in Ckx. destruct Ckx as [Ck Cx].
-          apply andb_prop in HVl. destruct HVl as [Vkx Vl]. apply andb_prop in Vkx. destruct Vkx as [Vk Vx].
-          apply andb_prop in HA. destruct HA as [Hk Hl]. cbn [fst] in Hk.
-          inversion IHk as [|? ? [Qk Qx] Qkvs]; subst. cbn [fst snd] in Qk, Qx.
-          destruct (dec_key_id k kt Hkid Ck) as [Dk Ek]. rewrite Ek in Em. cbn [bind] in Em.
-          destruct (ref_enc E P x vt) as [y|] eqn:Ey; [|discriminate]. cbn [bind] in Em.
-          match type of Em with (match ?X with _ => _ end = _) => destruct X as [ys|] eqn:Eys end; [|discriminate].
-          inversion Em; subst. destruct (IHkvs ys eq_refl Qkvs Cl Vl Hl) as [F1 F2].
-          split; [cbn [map fst]; rewrite F1; reflexivity|].
-          cbn [mapM]. rewrite Dk. cbn [bind]. rewrite (Qx vt y Cx HLv Vx Ey). cbn [bind]. rewrite Hk.
-          rewrite F2. reflexivity. }
-      destruct Hr as [Hk Hm].
-      rewrite (ref_dec_unfold E P true).
-      rewrite (dict_of_pairs_nodup r) by (rewrite (nodup_keys_fst r kvs Hk); exact Hnd).
-      rewrite Hm. cbn [bind]. rewrite (dict_of_pairs_nodup kvs Hnd). reflexivity.
     - (* TypedDict *)
       destruct (sfind E _ c') as [k|] eqn:Ef; [|discriminate HC].
       assert (Hk: cls_ok k = true).
@@ -748,7 +841,7 @@ Section Total.
   Proof.
     induction v as [ | b | z | f | s | m b | l IHl | l IHl | fr l IHl | kvs IHk | c fs IHf | e m | k w | c l IHl | tg ]
       using pv_rect'; unfold enc_total_ok.
-    all: intros t; induction t as [ | | | | | | m' | k' | e' | t' IHt | fr' t' IHt | t' IHt | ts | pre mid IHmid post | kt IHkt vt IHvt | t' IHt | c' | c' | c' ];
+    all: intros t; induction t as [ | | | | | | m' | k' | e' | t' IHt | fr' t' IHt | t' IHt | ts | pre mid IHmid post | kt IHkt vt IHvt | t' IHt | c' | c' | c' | t' IHt | kt IHkt vt IHvt | bx t' IHt ];
       intros HC HV; try (solve [apply (total_tupleu _ _ _ _ IHl HC HV)]);
       rewrite conf_unfold in HC; try discriminate HC;
       rewrite ref_enc_unfold; try (eexists; reflexivity).
@@ -758,6 +851,27 @@ Section Total.
     all: try solve [ try (apply andb_prop in HC; destruct HC as [_ HC]);
                      rewrite vals_ok_unfold in HV; apply andb_prop in HV; destruct HV as [_ HVl];
                      destruct (mapM_total l t' IHl HC HVl) as [r Er]; rewrite Er; eexists; reflexivity ].
+    (* dict / Mapping *)
+    all: try solve [
+      apply andb_prop in HC; destruct HC as [_ HC];
+      rewrite vals_ok_unfold in HV; apply andb_prop in HV; destruct HV as [_ HVl];
+      match goal with |- exists w, bind ?X _ = _ => assert (Hgo: exists r, X = Ok r) end;
+        [|destruct Hgo as [r Er]; rewrite Er; eexists; reflexivity];
+      clear IHkt IHvt; induction kvs as [|[k x] kvs IHkvs];
+      [ exists []; reflexivity
+      | cbn [forallb] in HC, HVl;
+        apply andb_prop in HC; destruct HC as [Ckx Cl]; apply andb_prop in Ckx; destruct Ckx as [Ck Cx];
+        apply andb_prop in HVl; destruct HVl as [Vkx Vl]; apply andb_prop in Vkx; destruct Vkx as [Vk Vx];
+        inversion IHk as [|? ? [Qk Qx] Qkvs]; subst; cbn [fst snd] in Qk, Qx;
+        destruct (Qk kt Ck Vk) as [k1 Ek]; destruct (Qx vt Cx Vx) as [x1 Ex]; destruct (IHkvs Qkvs Cl Vl) as [ys Eys];
+        exists ((k1, x1) :: ys); cbn [mapM]; rewrite Ek; cbn [bind]; rewrite Ex; cbn [bind]; rewrite Eys; reflexivity ] ].
+    (* boxed collections *)
+    all: try solve [
+      destruct fs as [|[n inner] [|]]; try discriminate HC;
+      apply andb_prop in HC; destruct HC as [_ HC];
+      destruct (chain_empty (is_chain bx) inner); [eexists; reflexivity|];
+      rewrite vals_ok_unfold in HV; apply andb_prop in HV; destruct HV as [_ HVf]; cbn [forallb] in HVf; rewrite andb_true_r in HVf;
+      inversion IHf as [|? ? Qi _]; subst; cbn [snd] in Qi; apply (Qi t' HC HVf) ].
     - (* fixed tuple *)
       rewrite vals_ok_unfold in HV. apply andb_prop in HV. destruct HV as [_ HVl].
       match goal with |- exists w, bind ?X _ = _ => assert (Hgo: exists r, X = Ok r) end;
@@ -769,19 +883,6 @@ Section Total.
         inversion IHl as [|? ? Qx Ql]; subst.
         destruct (Qx t1 Cx Vx) as [y Ey]. destruct (IHl' Ql Vl ts Cl) as [ys Eys].
         exists (y :: ys). rewrite Ey. cbn [bind]. rewrite Eys. reflexivity.
-    - (* dict *)
-      apply andb_prop in HC. destruct HC as [_ HC].
-      rewrite vals_ok_unfold in HV. apply andb_prop in HV. destruct HV as [_ HVl].
-      match goal with |- exists w, bind ?X _ = _ => assert (Hgo: exists r, X = Ok r) end;
-        [|destruct Hgo as [r Er]; rewrite Er; eexists; reflexivity].
-      clear IHkt IHvt. induction kvs as [|[k x] kvs IHkvs].
-      + exists []. reflexivity.
-      + cbn [forallb] in HC, HVl.
-        apply andb_prop in HC. destruct HC as [Ckx Cl]. apply andb_prop in Ckx. destruct Ckx as [Ck Cx].
-        apply andb_prop in HVl. destruct HVl as [Vkx Vl]. apply andb_prop in Vkx. destruct Vkx as [Vk Vx].
-        inversion IHk as [|? ? [Qk Qx] Qkvs]; subst. cbn [fst snd] in Qk, Qx.
-        destruct (Qk kt Ck Vk) as [k1 Ek]. destruct (Qx vt Cx Vx) as [x1 Ex]. destruct (IHkvs Qkvs Cl Vl) as [ys Eys].
-        exists ((k1, x1) :: ys). cbn [mapM]. rewrite Ek. cbn [bind]. rewrite Ex. cbn [bind]. rewrite Eys. reflexivity.
     - (* TypedDict *)
       destruct (sfind E _ c') as [k0|]; [|discriminate HC].
       apply andb_prop in HC. destruct HC as [HC _]. apply andb_prop in HC. destruct HC as [_ HCf].
